@@ -154,6 +154,26 @@ fn long_string_program(t: &mut Tape) -> Prog {
     p
 }
 
+/// one method (the entry or a function) with thousands of instructions
+fn long_code_program(t: &mut Tape) -> Prog {
+    let n = [1200usize, 2500, 5000][t.pick(3)];
+    let mut body: Vec<E> = vec![];
+    for i in 0..n {
+        body.push(match t.pick(5) {
+            0 => print("x", vec![]),
+            1 => print("~\n", vec![E::Int(i as i32)]),
+            2 => E::Block(vec![let_("a", E::Int(1)), var("a")]),
+            3 => bin("+", E::Int(i as i32), E::Int(10)),
+            _ => print("line\n~", vec![E::Null]),
+        });
+    }
+    if t.flag() {
+        vec![E::Fun("big".into(), vec![], bx(E::Block(body))), call("big", vec![])]
+    } else {
+        body
+    }
+}
+
 fn judge_program(prog: &Prog, ctx: &mut Ctx, t: &mut Tape, tape: &[u8]) -> Judged {
     let src = render::text(prog, render::Style::Minimal);
     let case = || json!({"tape": hex(tape), "source_prefix": src.chars().take(300).collect::<String>(), "source_len": src.len()});
@@ -204,10 +224,10 @@ fn cli_triples(ctx: &mut Ctx) -> Vec<Violation> {
         }
         let tape = crate::tools::random_tape(crate::tape::mix(ctx.seed ^ (i as u64 * 1_000_003)), 300);
         let mut t = Tape::new(&tape);
-        let prog = if i % 2 == 0 {
-            long_string_program(&mut t)
-        } else {
-            generate(&mut t, &Profile::full()).prog
+        let prog = match i % 4 {
+            0 | 2 => long_string_program(&mut t),
+            1 => long_code_program(&mut t),
+            _ => generate(&mut t, &Profile::full()).prog,
         };
         let src = render::text(&prog, render::Style::Minimal);
         let fsrc = sc.file("p.fml");
@@ -289,7 +309,7 @@ impl Property for C08 {
         "fault_enumeration"
     }
     fn rule(&self) -> String {
-        "cases: programs from the typed generator and programs with string constants of 1.1/3/9/70 KiB (with and without leading raw newlines) and several methods; for each program Program::serialize is called in-process on sinks that honour the Write contract: (i) every per-call acceptance limit k in {1,2,3,4,5,7,8,13,16,64,1000}; (ii) EVERY single write call in turn shortened to ceil(len/2) and to 1 byte (complete for programs up to 600 write calls in quick / 4000 in thorough, beyond that evenly thinned with the count reported); (iii) tape-driven schedules incl. Err(Interrupted) before accepting. oracle: the call returns an error, or the sink holds exactly the bytes of serializing into memory. Real stdout: `fml compile x.json -o f`, `> f` and `| reader` must give identical files (and equal the in-process image). non-trivial: at least one write call was actually shortened (counted by the sink); distinct by (image, schedule)".into()
+        "cases: programs from the typed generator, programs whose single method holds 1200-5000 statements (several 4 KiB blocks of instructions) and programs with string constants of 1.1/3/9/70 KiB (with and without leading raw newlines) and several methods; for each program Program::serialize is called in-process on sinks that honour the Write contract: (i) every per-call acceptance limit k in {1,2,3,4,5,7,8,13,16,64,1000}; (ii) EVERY single write call in turn shortened to ceil(len/2) and to 1 byte (complete for programs up to 600 write calls in quick / 4000 in thorough, beyond that evenly thinned with the count reported); (iii) tape-driven schedules incl. Err(Interrupted) before accepting. oracle: the call returns an error, or the sink holds exactly the bytes of serializing into memory. Real stdout: `fml compile x.json -o f`, `> f` and `| reader` must give identical files (and equal the in-process image). non-trivial: at least one write call was actually shortened (counted by the sink); distinct by (image, schedule)".into()
     }
     fn assumptions(&self) -> Vec<String> {
         vec!["sinks never return Ok(0) for a non-empty buffer and never lie about the count (the usual Write contract)".into()]
@@ -305,7 +325,11 @@ impl Property for C08 {
     }
     fn judge_tape(&self, tape: &[u8], ctx: &mut Ctx) -> Judged {
         let mut t = Tape::new(tape);
-        let prog = if t.chance(64) { long_string_program(&mut t) } else { generate(&mut t, &Profile::full()).prog };
+        let prog = match t.weighted(&[9, 3, 1]) {
+            0 => generate(&mut t, &Profile::full()).prog,
+            1 => long_string_program(&mut t),
+            _ => long_code_program(&mut t),
+        };
         judge_program(&prog, ctx, &mut t, tape)
     }
     fn replay(&self, case: &Value, ctx: &mut Ctx) -> Judged {
